@@ -223,19 +223,25 @@ def h_layered(ex):
     n2 = ex.real('n2', 1.1, 2.0)
     top = im.UniformIce(n1, valid_range=(zb, 0))
     mid = im.AntarcticIce(n0=1.78, k=0.43, a=0.0132, valid_range=(zc, zb))
-    bot = im.UniformIce(n2, valid_range=(-2850, zc))
+    # the bottom layer may declare its own index below: the stack's documented fallback
+    # (None) is 'the index at the lowermost boundary', not the layer's declaration
+    bot = im.UniformIce(n2, valid_range=(-2850, zc), index_below=ex.case.get('layer_below'))
     order = ex.case.get('order', 0)
     layers = [[top, mid, bot], [bot, top, mid], [mid, bot, top]][order]
-    ice = LayeredIce(layers, index_above=1.0, index_below=None)
+    above = ex.case.get('above', 1.0)
+    ice = LayeredIce(layers, index_above=above, index_below=None)
+    n_above = n1 if above is None else above     # None: index at the uppermost boundary
+    ex.close(ice.index_above, n_above, 'declared-index-above', tol=0.0)
+    ex.close(ice.index_below, n2, 'index-below==index-at-the-lowermost-boundary', tol=0.0)
     b = ice.boundaries
     ex.close(b, [0.0, zb, zc, -2850.0], 'boundaries', tol=0.0)
     z = ex.real('z', -3000, 100)
     got = ice.index(z)
     if ex.sym:
-        want = P.ite(z > 0, 1.0, P.ite(z > zb, n1, P.ite(z > zc, mid.index(z) if True else 0,
+        want = P.ite(z > 0, n_above, P.ite(z > zb, n1, P.ite(z > zc, mid.index(z) if True else 0,
                                                            P.ite(z >= -2850, n2, n2))))
     else:
-        want = 1.0 if z > 0 else (n1 if z > zb else (mid.index(z) if z > zc else n2))
+        want = n_above if z > 0 else (n1 if z > zb else (mid.index(z) if z > zc else n2))
     if ex.twin == 'open-top':
         want = P.ite(z >= zb, n1, want) if ex.sym else (n1 if z >= zb else want)
     ex.close(got, want, 'layer-dispatch', tol=1e-12)
@@ -281,8 +287,11 @@ HARNESSES = [
             cases={'quick': [{'ice': i} for i in ('antarctic', 'uniform', 'arasim')],
                    'thorough': [{'ice': i} for i in ('antarctic', 'uniform', 'arasim')]}),
     Harness('layered', h_layered, _mods, encodes=_enc, twins=('open-top',),
-            cases={'quick': [{'order': 0}, {'order': 1}],
-                   'thorough': [{'order': 0}, {'order': 1}, {'order': 2}]},
+            cases={'quick': [{'order': 0}, {'order': 1}, {'order': 2, 'above': None},
+                             {'order': 0, 'layer_below': 1.25}],
+                   'thorough': [{'order': 0}, {'order': 1}, {'order': 2}] +
+                   [{'order': o, 'above': a, 'layer_below': lb} for o in (0, 1, 2)
+                    for a in (None, 1.3) for lb in (None, 1.25)]},
             budget={'quick': {'max_paths': 3000}, 'thorough': {'max_paths': 10000}}),
 ]
 
